@@ -34,6 +34,7 @@
 #include <vector>
 #include <fcntl.h>
 #include <sys/mman.h>
+#include <sys/wait.h>
 #include <unistd.h>
 
 #if defined(__SANITIZE_ADDRESS__) || defined(__SANITIZE_THREAD__)
@@ -304,7 +305,35 @@ std::string evalCase(const Case &c, const std::function<std::string(const Case &
   if (!st.frozen) ++st.evaluations;
   std::string text = show(c);
   currentCaseFile().store(text);
-  std::string msg = run(c);
+  std::string msg;
+  static const bool isolate = opt("isolate", 0) != 0;
+  if (isolate) {
+    // crash shrinking: the case runs in a forked child, so a sanitizer abort / signal becomes an ordinary failure
+    // that rapidcheck can shrink. Only used by the driver to minimise a case that killed the process.
+    int fds[2];
+    if (pipe(fds) != 0) return "isolate: pipe failed";
+    fflush(nullptr);
+    pid_t pid = fork();
+    if (pid == 0) {
+      close(fds[0]);
+      int devnull = open("/dev/null", O_WRONLY);
+      if (devnull >= 0) { dup2(devnull, 2); }
+      std::string m = run(c);
+      if (!m.empty()) { ssize_t ignored = write(fds[1], m.data(), m.size()); (void)ignored; }
+      _exit(m.empty() ? 0 : 1);
+    }
+    close(fds[1]);
+    char buf[4096];
+    ssize_t n;
+    while ((n = read(fds[0], buf, sizeof buf)) > 0) msg.append(buf, static_cast<size_t>(n));
+    close(fds[0]);
+    int status = 0;
+    waitpid(pid, &status, 0);
+    if (WIFSIGNALED(status)) msg = "crash: process killed by signal " + std::to_string(WTERMSIG(status));
+    else if (WIFEXITED(status) && WEXITSTATUS(status) != 0 && msg.empty()) msg = "crash: sanitizer report or abnormal exit (code " + std::to_string(WEXITSTATUS(status)) + ")";
+  } else {
+    msg = run(c);
+  }
   currentCaseFile().clear();
   // partial statistics survive a wall-clock kill (book-keeping only, never part of a verdict)
   if (!st.frozen && (st.evaluations & 0x3f) == 0) {
